@@ -40,8 +40,18 @@ def runROp (r : Reader) : Option Reader.Op → String × Reader
   | none => ("bad-op", r)
   | some op => let (res, r') := op.run r; (showRes op res, r')
 
+def fnv64 (bs : Bytes) : Nat :=
+  bs.foldl (fun h b => ((h ^^^ b.toNat) * 0x100000001b3) % 18446744073709551616) 0xcbf29ce484222325
+
+def hex16r (n : Nat) : String :=
+  String.ofList ((List.range 16).reverse.map fun i => hexDigit ((n / 16 ^ i) % 16))
+
+/-- Window text: hex when short, `#<len>:<fnv-1a 64>` otherwise (as in the harness). -/
+def winhex (w : Bytes) : String :=
+  if w.length ≤ 64 then hex w else s!"#{w.length}:{hex16r (fnv64 w)}"
+
 def obsReader (res : String) (r : Reader) : String :=
-  s!"{res}|{hex r.window}|{r.position}|{r.mark}|{b2s r.isComplete}{b2s r.isAtEnd}{b2s r.ioError}|{r.src.calls}|{r.src.afterEnd}"
+  s!"{res}|{winhex r.window}|{r.position}|{r.mark}|{b2s r.isComplete}{b2s r.isAtEnd}{b2s r.ioError}|{r.src.calls}|{r.src.afterEnd}"
 
 structure RTags where
   realign : Nat := 0
@@ -51,7 +61,7 @@ structure RTags where
 
 def runReaderCase (line : String) : String × String :=
   let fs := fields line
-  let src : Source := { pre := unhex (field fs "pre"), data := unhex (field fs "d"),
+  let src : Source := { pre := unhex (field fs "pre"), data := dataField (field fs "d"),
                         fault := fieldNat fs "f" == 1, sched := parseSched (field fs "s") }
   let r0 := (Reader.mk' src).setChunkSize (fieldNat fs "c")
   let ops := parseROps (field fs "o")
